@@ -153,6 +153,51 @@ func structField(r *Run, st structure, t types.Type, name string) value {
 var tcMemoMu sync.Mutex
 var tcMemo = map[string]string{}
 
+func LayoutStubs(st map[string]StubFn) {
+	// sort.Slice / sort.SliceStable over an interpreter slice with an interpreted less function
+	// (insertion sort: stable; comparisons on symbolic positions fork through the solver)
+	sorter := func(r *Run, fr *frame, fn *ssa.Function, a []value) value {
+		iv, ok := a[0].(iface)
+		if !ok {
+			panic(unsupported("sort.Slice on non-interface"))
+		}
+		sl, ok := iv.v.([]value)
+		if !ok {
+			panic(unsupported("sort.Slice on a native slice"))
+		}
+		for i := 1; i < len(sl); i++ {
+			for j := i; j > 0 && r.branch(r.call(fr, fr.callpos, a[1], []value{j, j - 1})); j-- {
+				sl[j], sl[j-1] = sl[j-1], sl[j]
+			}
+		}
+		return nil
+	}
+	st["sort.SliceStable"] = sorter
+	st["sort.Slice"] = sorter
+	st["go/printer.Fprint"] = func(r *Run, fr *frame, fn *ssa.Function, a []value) value {
+		if r.Env["printer"] == "fail" {
+			r.Effects = append(r.Effects, Effect{Op: "printer.Fprint"})
+			return r.newError("<printer stopped by the harness>")
+		}
+		panic(unsupported("go/printer.Fprint (library internals are outside the encoder)"))
+	}
+	st["github.com/reedom/convergen/pkg/util.ToAstNode"] = func(r *Run, fr *frame, fn *ssa.Function, a []value) value {
+		obj, ok := a[1].(iface)
+		if !ok || obj.isNil() {
+			return passThrough{}
+		}
+		nv, ok := obj.v.(nativeV)
+		if !ok {
+			return passThrough{}
+		}
+		name := exported(nv.rv).MethodByName("Name").Call(nil)[0].String()
+		if p, ok := r.Env["astpath:"+name]; ok {
+			return tuple{p, true}
+		}
+		return passThrough{}
+	}
+}
+
 func TModeStubs(st map[string]StubFn) {
 	st[vrtPkg+"TypeCheckFuncs"] = func(r *Run, fr *frame, fn *ssa.Function, a []value) value {
 		sk, ok1 := a[0].(string)
